@@ -64,6 +64,8 @@ def ops_for(rng, coder, m, thorough, big):
     L = ["size %s %s" % (coder, s)]
     if size_est <= (400 if thorough else 300):
         L.append("encall %s %s" % (coder, s))
+        if coder == "udp" and m["opts"]:
+            L.append("omar x %s" % s)
     else:
         for cap in sorted({0, 1, 4, size_est - 1, size_est, size_est + 1, size_est + 9, rng.randrange(size_est + 1)}):
             if cap >= 0:
@@ -113,7 +115,7 @@ def shrink(art, line, clause):
     """Greedy shrinking of a message line while the judge still reports the same clause on the implementation."""
     f = line.split()
     op = f[0]
-    nhead = {"size": 2, "encall": 2, "enc": 3, "rt": 3, "pool": 4}.get(op)
+    nhead = {"size": 2, "encall": 2, "omar": 2, "enc": 3, "rt": 3, "pool": 4}.get(op)
     if nhead is None:
         return line
     head, mf = f[:nhead], f[nhead:]
